@@ -220,7 +220,11 @@ func TestTimersAndVirtualTime(t *testing.T) {
 		seq = nil
 		done := vx.NewCounter("d")
 		env.Go("a", func() { vx.Sleep(2 * time.Second); seq = append(seq, fmt.Sprint("a@", env.Now())); done.Add(1) })
-		env.Go("b", func() { vx.Recv(vx.After(time.Second), ""); seq = append(seq, fmt.Sprint("b@", env.Now())); done.Add(1) })
+		env.Go("b", func() {
+			vx.Recv(vx.After(time.Second), "")
+			seq = append(seq, fmt.Sprint("b@", env.Now()))
+			done.Add(1)
+		})
 		done.WaitFor(2)
 	}, func(o *vx.Outcome) string { return strings.Join(seq, ",") })
 	expect(t, got, "ok:b@1s,a@2s")
